@@ -127,6 +127,33 @@ CHECKS = {
         note=NOTE_COMMON + " malloc is assumed to return disjoint, 8-aligned blocks or NULL. Real frees and leaks are visible only to the run-time ledger and sanitizers (partial).",
         technique="Lean 4 proof (allocator invariant by induction over requests) + correspondence check + allocation ledger / LeakSanitizer",
     ),
+    "C02": dict(
+        category="proof",
+        text=("Lean theorems (Edn.Properties.C02): for every input, configuration and option set the reader returns (the recursion fuel "
+              "4*length+8 is never exhausted; results do not depend on the fuel once sufficient); every successfully read form consumes at "
+              "least one byte; at the nesting limit read from the source the reader does not descend into any collection, tag, discard or "
+              "metadata form, so recursion depth is bounded independently of the input; ratio_gcd terminates with the mathematical gcd for "
+              "all int64 operands incl. INT64_MIN. Real stack and time are monitored, not proved: nesting families (each opener, #tag, #_, ^x, "
+              "namespaced maps, mixed, discard runs, comment runs, closers) at depths 1..3*10^5 (10^6 thorough) run in the -O2, -O0 and sanitised "
+              "builds under a 1 MiB stack and a CPU limit; generated and corrupted documents under the same limits; wall time on widening "
+              "families must grow at most quadratically."),
+        design_ref="DESIGN.md section 6, C02",
+        note=NOTE_COMMON + " Partial: real stack frames and real time are only measured; the cost model (step counts) is not a theorem.",
+        technique="Lean 4 proof (progress, fuel monotonicity/sufficiency by induction on fuel; Stein gcd termination) + resource-limited runs",
+    ),
+    "C05": dict(
+        category="proof",
+        text=("Lean theorems (Edn.Properties.C05), with round-to-nearest-even defined in exact natural-number arithmetic: every entry of the "
+              "power-of-ten table extracted from the compiled source is exactly 10^k; rounding depends only on the value n/d; the fast path "
+              "(mantissa <= 2^53-1, |exponent| <= 22) returns the double nearest to mant*10^e with a single rounding for multiplication and "
+              "division alike; the clamp used for astronomically large exponents changes no result. The slow path is strtod, assumed correctly "
+              "rounded. Tied to the code by bit patterns from parse_double_from_buffer and whole reads: every (1..19 digits) x (exponent -26..26) "
+              "cell with and without a decimal point, exact half-way cases, subnormal/overflow thresholds, shortest round-trip renderings of "
+              "random doubles, literals of 20..2000 significant characters, random shapes - against Python's correctly rounded float()."),
+        design_ref="DESIGN.md section 6, C05",
+        note=NOTE_COMMON + " Assumed: IEEE-754 single rounding of cvtsi2sd/mulsd/divsd, glibc strtod correctly rounded in the C locale. That the accumulated (mantissa, exponent) pair equals the literal's decimal value is tied by correspondence, not yet a theorem.",
+        technique="Lean 4 proof (exact-arithmetic rounding, scale invariance, table check by decide +kernel) + correspondence check + float() oracle",
+    ),
 }
 
 
